@@ -32,8 +32,11 @@ def run(chk, repo, tier):
     chk.clause('C16-f', 'gain form <-> einsum subscripts per gain.ndim; scalar gain lifted to 1-D', 4)
     chk.clause('C16-g', 'power cube: row d carries exponent order with d + order = model_order', 1)
     chk.clause('C16-h', 'floor, then clamp at zero, then cast; saturation clip precedes the gain; warning predicate = clip predicate', 4)
+    chk.clause('C16-i', 'colour pattern tiled over the native pixel grid (rows, cols of the cube) and replicated oversample x oversample', 3)
     chk.not_decided += ['linearity in photons and QE numerically', 'monotonicity']
 
+    from .extra_rules import bayer_tiling_rule
+    bayer_tiling_rule(chk, repo, 'C16-i')
     # ------------------------------------------------------------ C16-a / b
     f, paths, _ = analyse(repo, 'detector.collect_charge')
     for p in returns(paths):
